@@ -38,6 +38,15 @@ PairProductOk(w, F) ==
                          Cardinality({k2 \in 1..Len(w[1]) : VarOf(w, k2, c) > VarOf(w, k, c)}) = r - 1]} :
       \A comp \in 1..3 : \A s1 \in 1..Len(w), s2 \in 1..Len(w) :
          F[s1][c][comp] * F[s2][c][comp] = w[s1][order[comp]][c] * w[s2][order[comp]][c]
+\* the same for a LONG request given as distinct waveforms with multiplicities (cnt[s] copies of w[s]): the
+\* principal axes are those of ALL the waveforms of the request
+VarOfW(w, cnt, k, c) == SumSeq([s \in 1..Len(w) |-> cnt[s] * w[s][k][c] * w[s][k][c]])
+PairProductOkW(w, cnt, F) ==
+   \A c \in 1..Len(w[1][1]) :
+      \A order \in {[r \in 1..Len(w[1]) |-> CHOOSE k \in 1..Len(w[1]) :
+                         Cardinality({k2 \in 1..Len(w[1]) : VarOfW(w, cnt, k2, c) > VarOfW(w, cnt, k, c)}) = r - 1]} :
+      \A comp \in 1..3 : \A s1 \in 1..Len(w), s2 \in 1..Len(w) :
+         F[s1][c][comp] * F[s2][c][comp] = w[s1][order[comp]][c] * w[s2][order[comp]][c]
 
 \* ---------------------------------------------------------------------------- I-layer
 MaxOfSeq(s) == IF s = <<>> THEN 0 ELSE SeqMax(s)
